@@ -619,6 +619,9 @@ def cases_for(prop, tier, seed, pools, toks, ck):
     elif prop == "C04":
         for lang in L:
             bw = gen.three_letter_words(lang, rnd, per(3, 40)) + gen.run_words(lang, rnd, per(3, 30))
+            # title words in scripts other than the language's own (place and brand names): the edits that only rearrange or
+            # drop the word's own letters stay inside the property's domain whatever the language
+            bw += rnd.sample(gen.FOREIGN_SCRIPT_TITLES, heavy(3, len(gen.FOREIGN_SCRIPT_TITLES)))
             # titles of a dozen words (listings with the whole description in the title): far more grams than any record of
             # the bundled data set has
             for _k in range(heavy(2, 20)):
@@ -657,12 +660,14 @@ def cases_for(prop, tier, seed, pools, toks, ck):
             cases += gen.gen_store_relations("C05", lang, rnd, pools[lang], toks, per(4, 100))
             cases += gen.gen_histories("C05", lang, rnd, pools[lang] + gen.ADVERSARIAL, toks, per(9, 150), length=12, adversarial=True)
         cases += gen.gen_registry_cases(rnd, per(15, 400), pools, toks, length=per(30, 50))
+        cases += gen.gen_long_lived_store_cases("C05", L[seed % len(L)], rnd)
     elif prop == "C06":
         for lang in L:
             cases += gen.gen_store_relations("C06", lang, rnd, pools[lang], toks, per(4, 120))
             cases += gen.gen_store_relations("C06", lang, rnd, pools[lang], toks, per(1, 30), big=True)
             cases += gen.gen_family_cases("C06", lang, rnd, per(2, 40))
         cases += gen.gen_huge_store_cases("C06", rnd.choice(L), rnd, pools["en"], heavy(1, 6))
+        cases += gen.gen_long_lived_store_cases("C06", L[seed % len(L)], rnd)
     elif prop == "C07":
         for lang in L:
             cases += gen.gen_store_relations("C07", lang, rnd, pools[lang], toks, per(4, 120))
@@ -676,6 +681,7 @@ def cases_for(prop, tier, seed, pools, toks, ck):
             cases += gen.gen_histories(prop, lang, rnd, pools[lang], toks, per(12, 400), length=per(14, 24))
             if prop == "C10":
                 cases += gen.gen_family_cases("C10", lang, rnd, per(3, 60))
+                cases += gen.gen_two_store_cases("C10", lang, rnd, pools[lang])
                 if lang == L[seed % len(L)]:
                     cases += gen.gen_long_lived_store_cases("C10", lang, rnd)
             if prop == "C12":
@@ -820,6 +826,7 @@ def plan_components(prop, tier, seed, t0):
         for lang in gen.LANGS:
             sc += gen.gen_histories("C19", lang, rnd, pools[lang] + gen.ADVERSARIAL, toks, sizes(tier, 5, 150), length=16, adversarial=True)
             sc += gen.gen_long_word_cases("C19", lang, rnd, sizes(tier, 4, 80))
+            sc += gen.gen_two_store_cases("C19", lang, rnd, pools[lang])
         m2 = run_cases(prop + "s", sc, ck, None, spec="TV_Store")
         merge_into(merged, m2)
     return verdict(prop, tier, seed, merged, l1, t0, spec="TV_Comp")
